@@ -460,23 +460,14 @@ func (w *walker) pushState(s wstate, to *ssa.BasicBlock) {
 	}
 	k := [4]int{to.Index, -1, -1, -1}
 	n := wstate{b: to}
-	switch {
-	case from != nil && threadable(to):
+	if from != nil && threadable(to) {
 		k[1] = predIndex(to, from)
 		n.pred = from
-	case from != nil && len(to.Preds) == 1:
-		// inherit what is known about an upstream merge
-		if s.pred != nil && threadable(from) {
-			n.ctxB, n.ctxPi = from, predIndex(from, s.pred)
-		} else if s.ctxB != nil {
-			n.ctxB, n.ctxPi = s.ctxB, s.ctxPi
-		}
+	}
+	if from != nil {
+		w.inherit(&n, s, from, to)
 		if n.ctxB != nil {
-			if n.ctxPi < 0 {
-				n.ctxB = nil
-			} else {
-				k[2], k[3] = n.ctxB.Index, n.ctxPi
-			}
+			k[2], k[3] = n.ctxB.Index, n.ctxPi
 		}
 	}
 	if w.seen[k] {
@@ -557,12 +548,13 @@ func ReachableFromEntryAssumingAvoiding(target ssa.Instruction, assume map[ssa.V
 	old := assumed
 	assumed = assume
 	defer func() { assumed = old }()
-	type st struct{ b, pred *ssa.BasicBlock }
-	seen := map[st]bool{}
-	stack := []st{{fn.Blocks[0], nil}}
-	for len(stack) > 0 {
-		x := stack[len(stack)-1]
-		stack = stack[:len(stack)-1]
+	w := newWalker(nil)
+	w.push(nil, fn.Blocks[0])
+	for {
+		x, ok := w.pop()
+		if !ok {
+			return false
+		}
 		blocked := false
 		for _, in := range x.b.Instrs {
 			if in == target {
@@ -576,42 +568,124 @@ func ReachableFromEntryAssumingAvoiding(target ssa.Instruction, assume map[ssa.V
 		if blocked {
 			continue
 		}
-		for _, t := range feasibleSuccsAssuming(x.b, x.pred) {
-			n := st{t, x.b}
-			if !seen[n] {
-				seen[n] = true
-				stack = append(stack, n)
-			}
+		for _, t := range succsAssuming(x) {
+			w.pushStateAll(x, t)
 		}
 	}
-	return false
 }
 
 func reachAssuming(start *ssa.BasicBlock, includeStart bool, target ssa.Instruction, assume map[ssa.Value]bool) bool {
 	old := assumed
 	assumed = assume
 	defer func() { assumed = old }()
-	// every block may decide per predecessor under assumptions: use edge states
-	type st struct{ b, pred *ssa.BasicBlock }
-	seen := map[st]bool{}
-	stack := []st{{start, nil}}
+	w := newWalker(nil)
+	w.push(nil, start)
 	first := true
-	for len(stack) > 0 {
-		x := stack[len(stack)-1]
-		stack = stack[:len(stack)-1]
+	for {
+		x, ok := w.pop()
+		if !ok {
+			return false
+		}
 		if x.b == target.Block() && (includeStart || !first) {
 			return true
 		}
 		first = false
-		for _, t := range feasibleSuccsAssuming(x.b, x.pred) {
-			n := st{t, x.b}
-			if !seen[n] {
-				seen[n] = true
-				stack = append(stack, n)
+		for _, t := range succsAssuming(x) {
+			w.pushStateAll(x, t)
+		}
+	}
+}
+
+// succsAssuming: successors of a state under assumptions — per-predecessor
+// evaluation for every block (a phi may carry an assumed value), then the
+// chain context.
+func succsAssuming(s wstate) []*ssa.BasicBlock {
+	out := feasibleSuccsAssuming(s.b, s.pred)
+	if len(out) < 2 || s.ctxB == nil || s.ctxPi < 0 || s.ctxPi >= len(s.ctxB.Preds) {
+		return out
+	}
+	iff, ok := s.b.Instrs[len(s.b.Instrs)-1].(*ssa.If)
+	if !ok || !condUsesPhiOf(iff.Cond, s.ctxB, 0) {
+		return out
+	}
+	switch evalCond(iff.Cond, s.ctxB, s.ctxPi, s.ctxB.Preds[s.ctxPi], 0) {
+	case triTrue:
+		return s.b.Succs[:1]
+	case triFalse:
+		return s.b.Succs[1:2]
+	}
+	return out
+}
+
+// pushStateAll is pushState that records the predecessor for every block
+// (needed under assumptions) and keeps the chain context.
+func (w *walker) pushStateAll(s wstate, to *ssa.BasicBlock) {
+	from := s.b
+	k := [4]int{to.Index, predIndex(to, from), -1, -1}
+	n := wstate{b: to, pred: from}
+	if from != nil {
+		w.inherit(&n, s, from, to)
+		if n.ctxB != nil {
+			k[2], k[3] = n.ctxB.Index, n.ctxPi
+		}
+	}
+	if w.seen[k] {
+		return
+	}
+	w.seen[k] = true
+	w.stack = append(w.stack, n)
+}
+
+// inherit decides what the new state knows about an upstream merge:
+//   - entering a block that merges a flag / enum from constants: that block
+//     and the entering edge (valid until the block is entered again, wherever
+//     the path goes in between);
+//   - else, along a single-predecessor chain below a threadable block: that
+//     block and the edge it was entered by;
+//   - else what the previous state knew, if that was a flag / enum merge (or
+//     the chain continues).
+func (w *walker) inherit(n *wstate, s wstate, from, to *ssa.BasicBlock) {
+	switch {
+	case mergesConstants(to):
+		n.ctxB, n.ctxPi = to, predIndex(to, from)
+	case len(to.Preds) == 1 && s.pred != nil && len(from.Preds) >= 2 && !(s.ctxB != nil && mergesConstants(s.ctxB)):
+		n.ctxB, n.ctxPi = from, predIndex(from, s.pred)
+	case s.ctxB != nil && (mergesConstants(s.ctxB) || len(to.Preds) == 1):
+		n.ctxB, n.ctxPi = s.ctxB, s.ctxPi
+	}
+	if n.ctxB != nil && n.ctxPi < 0 {
+		n.ctxB = nil
+	}
+}
+
+var mergeCache = map[*ssa.BasicBlock]bool{}
+
+// mergesConstants: the block has a phi all of whose incoming values are
+// constants (a flag or enum variable assigned on several arms).
+func mergesConstants(b *ssa.BasicBlock) bool {
+	if v, ok := mergeCache[b]; ok {
+		return v
+	}
+	res := false
+	if len(b.Preds) >= 2 {
+		for _, in := range b.Instrs {
+			ph, ok := in.(*ssa.Phi)
+			if !ok {
+				break
+			}
+			all := len(ph.Edges) > 0
+			for _, e := range ph.Edges {
+				if k, isK := e.(*ssa.Const); !isK || k.Value == nil {
+					all = false
+				}
+			}
+			if all {
+				res = true
 			}
 		}
 	}
-	return false
+	mergeCache[b] = res
+	return res
 }
 
 // feasibleSuccsAssuming is feasibleSuccs with per-predecessor evaluation for
